@@ -46,6 +46,20 @@ SCHEMAS = {
     "S_nullable": ({"type": "object", "nullable": True, "properties": {"n": {"type": "integer", "minimum": 0}}}, [None, {"n": 0}, {}], [{"n": -1}, 3, "x"]),
     # `nullable: false` spelled out is the same as leaving it out
     "S_notnull": ({"type": "object", "nullable": False, "properties": {"n": {"type": "integer", "nullable": False}}}, [{"n": 1}, {}], [None, {"n": None}, 3]),
+    # nullable / writeOnly below the top level (the conversion has to reach them also behind a $ref)
+    "S_nested": (
+        {
+            "type": "object",
+            "required": ["inner"],
+            "properties": {
+                "inner": {"type": "object", "nullable": True, "properties": {"k": {"type": "integer"}}},
+                "list": {"type": "array", "items": {"type": "integer", "nullable": True}},
+                "user": {"type": "object", "properties": {"name": {"type": "string"}, "password": {"type": "string", "writeOnly": True}}},
+            },
+        },
+        [{"inner": None}, {"inner": {"k": 1}, "list": [1, None]}, {"inner": None, "user": {"name": "n"}}],
+        [{"inner": 5}, {"inner": None, "list": ["x"]}, {"inner": None, "user": {"name": "n", "password": "p"}}],
+    ),
     "S_write1": (
         {"type": "object", "required": ["id"], "properties": {"id": {"type": "integer"}, "password": {"type": "string", "writeOnly": True}}},
         [{"id": 1}],
@@ -64,7 +78,9 @@ SCHEMAS = {
     "S_enum": ({"type": "string", "enum": ["a", "b"]}, ["a"], ["c", 1, None]),
     "S_num": ({"type": "number", "minimum": 0, "exclusiveMinimum": True}, [0.5, 3], [0, -1, "1"]),
 }
+SCHEMAS["S_nested_ref"] = ({"$ref": "#/components/schemas/Nested"}, SCHEMAS["S_nested"][1], SCHEMAS["S_nested"][2])
 COMPONENT_SCHEMAS = {
+    "Nested": copy.deepcopy(SCHEMAS["S_nested"][0]),
     "Item": {"type": "object", "required": ["name"], "properties": {"name": {"type": "string"}, "owner": {"$ref": "#/components/schemas/Owner"}}},
     "Owner": {"type": "object", "required": ["uid"], "properties": {"uid": {"type": "integer"}}},
 }
@@ -74,6 +90,8 @@ HEADERS = {
     "X-Opt": ({"schema": {"type": "string", "enum": ["a", "b"]}}, ["a"], ["c"]),
     "X-Flag": ({"required": True, "schema": {"type": "boolean"}}, ["true", "false"], ["maybe"]),
     "X-Ref": ({"$ref": "#/components/headers/Limit"}, ["10"], ["ten"]),
+    # every spelling of a number: plain, with a fraction, with an exponent (and no dot)
+    "X-Ratio": ({"required": True, "schema": {"type": "number", "minimum": 0}}, ["0.5", "3", "2E3", "1e-05", "1.5e2"], ["-1", "1e", "abc"]),
 }
 COMPONENT_HEADERS = {"Limit": {"required": True, "schema": {"type": "integer"}}}
 STATUS_KEYS = ["200", "201", "404", "2XX", "4XX", "default"]
